@@ -131,6 +131,9 @@ func nontrivial(c Case) bool {
 func TestCheck(t *testing.T) {
 	r := vkit.Start("C06")
 	defer r.Finish(t)
+	if r.ReplayCold() {
+		return
+	}
 	if r.Replay != "" {
 		var c Case
 		if err := r.LoadReplay(&c); err != nil {
@@ -347,6 +350,35 @@ func TestCheck(t *testing.T) {
 		}
 	})
 
+	// Phase B3c: two identifiers in the same position that share a stem of 0..40 characters (letters, digits, hyphens, mixed) and
+	// differ in a short tail: what the stem is made of decides whether the identifier is numeric, whatever the tail looks like.
+	r.Phase("B3c: identifier pairs with a common stem of 0..40 characters (letters / digits / hyphens / mixed) x 13 x 13 tails, in first and later positions", func() {
+		stems := func(k int) []string {
+			mixed := "nightly-2022-01-01-build-0000000-abcdef-0123456789"
+			return []string{strings.Repeat("a", k), strings.Repeat("1", k), strings.Repeat("-", k), mixed[:k], ("20220101000000000000000000000000000000000000")[:k], ("0a1b2c3d4e5f6g7h8i9j0k1l2m3n4o5p6q7r8s9t0u1v2w3x")[:k]}
+		}
+		tails := []string{"", "0", "1", "2", "9", "10", "01", "a", "1x", "x1", "-", "a0", "00"}
+		r.Parallel(41, 1, func(w *vkit.W, lo, hi int64) {
+			for k := lo; k < hi; k++ {
+				for _, stem := range stems(int(k)) {
+					for _, ta := range tails {
+						for _, tb := range tails {
+							ia, ib := stem+ta, stem+tb
+							if !ref.ValidPreRelease(ia) || !ref.ValidPreRelease(ib) {
+								continue
+							}
+							for _, lead := range []string{"", "rc.1.", "x.y.z.0."} {
+								c := Case{A: V{Major: 1, Pre: lead + ia, Build: "b"}, B: V{Major: 1, Pre: lead + ib}, Helpers: true}
+								judge(c, w)
+								w.EvalRandom(vkit.Hash64("B3c", c.A.Pre, c.B.Pre), nontrivial(c))
+							}
+						}
+					}
+				}
+			}
+		})
+	})
+
 	// Phase B4: very many distinct versions through the string helpers in one process, in ascending order.
 	nMany := int64(r.Pick(6000000, 60000000))
 	r.Phase(fmt.Sprintf("B4: %d distinct ascending versions compared with their successor through Compare / CompareVersion / LatestTag", nMany), func() {
@@ -386,6 +418,8 @@ func TestCheck(t *testing.T) {
 	})
 
 	// Phase C: rapid - long identifier lists with shared prefixes and 1-25 digit numeric identifiers.
+	r.ColdPhase(coldFirst)
+
 	r.Phase("C: rapid long identifier lists", func() {
 		r.Rapid(t, "rapid-pairs", 0, r.Pick(50000, 2000000), func(rt *rapid.T, w *vkit.W) vkit.RapidCase {
 			ident := rapid.Custom(func(rt *rapid.T) string {
